@@ -161,7 +161,7 @@ type rnsWeights struct{ bidHeavy bool }
 
 func rnsMachine(rt *rapid.T, c *chain.Chain, wts rnsWeights, oracle func(*rnsWorld, *rnsStep) *rnsFailure, rec *ev.Rec) *rnsWorld {
 	w := newRnsWorld(c, 4)
-	pool := []string{"a.jkl", "ab.jkl", "abc.ibc", "abcde.jkl", "n4me.jkl", "x_y-z.ibc"}
+	pool := []string{"a.jkl", "ab.jkl", "abc.ibc", "abcde.jkl", "n4me.jkl", "x_y-z.ibc", "superjkl.jkl", "myibc.ibc"}
 	n := rapid.IntRange(2, 4).Draw(rt, "nNames")
 	start := rapid.IntRange(0, len(pool)-1).Draw(rt, "pool")
 	for i := 0; i < n; i++ {
